@@ -316,5 +316,57 @@ def run(ck, scratch):
 
 
 def replay(ck, body):
-    print(body)
+    """re-run one saved case against the current code; exit 1 if it still fails its oracle"""
+    import tempfile, json
+    case = body.get('case') or {}
+    d = tempfile.mkdtemp(prefix='c13replay', dir=vlib.BUILD)
+    try:
+        if 'lines' in case:
+            pth = os.path.join(d, 'r.fa')
+            write_fasta(pth, [('r', case['lines'])], eol='\r\n' if case.get('eol') == 'CRLF' else '\n')
+            got = code_regions(pth).get('r', [])
+            exp = py_runs(''.join(case['lines']))
+            print('get_regions ->', got, 'expected', exp)
+            bad = got != exp
+        elif 'rows' in case:
+            from cnvlib import access
+            from skgenome import GenomicArray as GA
+            rows = [tuple(r) for r in case['rows']]
+            got = [(int(s), int(e)) for _, s, e in access.join_regions(GA.from_rows([('chr1', s, e) for s, e in rows]), case['gap'])]
+            exp = py_join(rows, case['gap'])
+            print('join_regions ->', got, 'expected', exp)
+            bad = got != exp
+        elif 'name' in case:
+            from cnvlib.antitarget import is_canonical_contig_name
+            got = bool(is_canonical_contig_name(case['name']))
+            exp = not py_noncanonical(case['name'])
+            print('is_canonical_contig_name(%r) ->' % case['name'], got, 'expected', exp)
+            bad = got != exp
+        elif 'records' in case:
+            from cnvlib import access
+            fa = os.path.join(d, 'p.fa')
+            write_fasta(fa, [(n, l) for n, l in case['records']])
+            exf = []
+            for j, rows in enumerate(case['excludes']):
+                ex = os.path.join(d, 'ex%d.bed' % j)
+                with open(ex, 'w') as fh:
+                    for r in rows:
+                        fh.write('%s\t%d\t%d\n' % tuple(r))
+                exf.append(ex)
+            out = access.do_access(fa, exf, case['min_gap'], case['skip_noncanonical'])
+            got = {}
+            for row in out:
+                got.setdefault(row.chromosome, []).append([int(row.start), int(row.end)])
+            exp = body.get('expected')
+            print('do_access ->', got, 'expected', exp)
+            bad = json.loads(json.dumps(got)) != exp
+        else:
+            print('tie-break / obligation replay (no input case):', body.get('what'))
+            bad = True
+    finally:
+        vlib.rm_scratch(d)
+    if bad:
+        print('VIOLATION property=C13 replay=(replayed case still fails)')
+        return 1
+    print('replayed case passes on the current tree')
     return 0
